@@ -2,6 +2,10 @@
 # Runs the repository's pinned test suite (guard off: no build tag) and compares with BASELINE.json.
 # usage: baseline.sh [repo dir]   (default /repo)
 R=${1:-/repo}
+# the pinned suite runs with the repository's default toolchain (go 1.23.x selected through go.mod),
+# not with the newer Go the checks use: some tests are tagged by Go version
+PATH=$(echo "$PATH" | tr ':' '\n' | grep -v veriftools/go1.26 | paste -sd:)
+unset GOTOOLCHAIN GOFLAGS GOPROXY GOSUMDB
 OUT=$(mktemp /tmp/baseline.XXXXXX.json)
 trap 'rm -f $OUT' EXIT
 ( cd $R && go test -mod=mod -json -vet=off -count=1 -timeout 25m ./... ) > $OUT 2>/dev/null
